@@ -419,7 +419,7 @@ def strip_dummy(o):
     return o2
 
 
-def spot_check(case, mats, what, out, part, value, G):
+def spot_check(case, mats, what, out, part, value, G, vscale=None):
     """One output number through the DEVGUIDE path: analytic gradient -> combine -> cmp_obs.
     G[k] = holomorphic derivative d out / d (M_k)_ab as complex (or real) arrays; `part` selects re / im of out."""
     grads, refs = [], []
@@ -431,6 +431,13 @@ def spot_check(case, mats, what, out, part, value, G):
         return
     v = complex(value)
     rf = combine(lambda x: 0.0, grads, refs, value=v.real if part == 're' else v.imag)
+    if vscale is not None:
+        # an entry that vanishes identically (structural zero of the result) is a rounding residue of the size eps * |result matrix|
+        rf.vmag = max(rf.vmag, float(vscale))
+        for n_ in rf.mag:       # d(result) = -X dA X: residues of size eps * |X|^2 * |dA|
+            rf.mag[n_] = max(rf.mag[n_], float(vscale) ** 2 * max([r.mag.get(n_, 0.0) for r in refs] + [0.0]))
+        for n_ in rf.cgmag:
+            rf.cgmag[n_] = max(rf.cgmag[n_], float(vscale) ** 2 * max([r.cgmag.get(n_, 0.0) for r in refs] + [0.0]))
     cmp_obs(rf, strip_dummy(out), what, rtol=1e-9, atol_scale=1e-11, vtol=1e-10, check_rv=False)
 
 
@@ -657,10 +664,10 @@ def inv_oracle(spec):
     x = np.linalg.inv(a)
     G = [-np.outer(x[i, :], x[:, j])]
     if cplx:
-        spot_check(case, [m], what + ' entry (%d,%d) real part' % (i, j), res[i, j].real, 're', x[i, j], G)
-        spot_check(case, [m], what + ' entry (%d,%d) imaginary part' % (i, j), res[i, j].imag, 'im', x[i, j], G)
+        spot_check(case, [m], what + ' entry (%d,%d) real part' % (i, j), res[i, j].real, 're', x[i, j], G, vscale=np.max(np.abs(x)))
+        spot_check(case, [m], what + ' entry (%d,%d) imaginary part' % (i, j), res[i, j].imag, 'im', x[i, j], G, vscale=np.max(np.abs(x)))
     else:
-        spot_check(case, [m], what + ' entry (%d,%d)' % (i, j), res[i, j], 're', x[i, j], G)
+        spot_check(case, [m], what + ' entry (%d,%d)' % (i, j), res[i, j], 're', x[i, j], G, vscale=np.max(np.abs(x)))
     return finish(spec, [m], {'n:%d' % n, 'kind:' + spec['kind']})
 
 
